@@ -151,35 +151,157 @@ theorem length_le_allClauses {k n : Nat} {planted : List (List Int)} {cls : List
 
 /-! ### one candidate of the rejection loop -/
 
+theorem rejectVars_nil (k n : Nat) (chosen : List Int) :
+    rejectVars k n chosen [] = if chosen.length < k then .error .outOfDraws else .ok (chosen, []) := rfl
+
+theorem rejectVars_cons (k n : Nat) (chosen : List Int) (d : Draw) (rest : List Draw) :
+    rejectVars k n chosen (d :: rest) =
+      if chosen.length < k then
+        match d with
+        | .randint a b v =>
+          if a = 1 ∧ b = (n : Int) then rejectVars k n (if chosen.contains v then chosen else v :: chosen) rest
+          else .error .mismatch
+        | _ => .error .mismatch
+      else .ok (chosen, d :: rest) := rfl
+
+/-- invariant of the `chosen` set of `sample_variables` -/
+def ChosenInv (k n : Nat) (chosen : List Int) : Prop :=
+  chosen.Nodup ∧ (∀ x ∈ chosen, 1 ≤ x ∧ x ≤ (n : Int)) ∧ chosen.length ≤ k
+
+theorem ChosenInv.step {k n : Nat} {chosen : List Int} {v : Int} (h : ChosenInv k n chosen)
+    (hlt : chosen.length < k) (hv : 1 ≤ v ∧ v ≤ (n : Int)) :
+    ChosenInv k n (if chosen.contains v then chosen else v :: chosen) := by
+  obtain ⟨hnd, hm, _⟩ := h
+  split
+  · exact ⟨hnd, hm, by omega⟩
+  · rename_i hc
+    refine ⟨List.nodup_cons.2 ⟨by simpa using hc, hnd⟩, ?_, by simp; omega⟩
+    intro x hx
+    rcases List.mem_cons.1 hx with rfl | hx
+    · exact hv
+    · exact hm x hx
+
+theorem rejectVars_ok {k n : Nat} {ds : List Draw} : ∀ {ds' : List Draw} {chosen sel : List Int}, Legal ds →
+    ChosenInv k n chosen → rejectVars k n chosen ds = .ok (sel, ds') →
+    ChosenInv k n sel ∧ sel.length = k ∧ Legal ds' ∧ ds'.length ≤ ds.length := by
+  induction ds with
+  | nil =>
+    intro ds' chosen sel hL hI h
+    rw [rejectVars_nil] at h
+    split at h
+    · cases h
+    · simp only [Except.ok.injEq, Prod.mk.injEq] at h
+      obtain ⟨rfl, rfl⟩ := h
+      exact ⟨hI, by have := hI.2.2; omega, hL, Nat.le_refl _⟩
+  | cons d rest ih =>
+    intro ds' chosen sel hL hI h
+    obtain ⟨hd, hL'⟩ := Legal.cons.1 hL
+    rw [rejectVars_cons] at h
+    split at h
+    · rename_i hlt
+      cases d with
+      | randint a b v =>
+        simp only at h
+        split at h
+        · rename_i hab
+          obtain ⟨rfl, rfl⟩ := hab
+          obtain ⟨a1, a2, a3, a4⟩ := ih hL' (hI.step hlt hd) h
+          exact ⟨a1, a2, a3, by simp; omega⟩
+        · cases h
+      | _ => cases h
+    · simp only [Except.ok.injEq, Prod.mk.injEq] at h
+      obtain ⟨rfl, rfl⟩ := h
+      exact ⟨hI, by have := hI.2.2; omega, hL, Nat.le_refl _⟩
+
+theorem rejectVars_error {k n : Nat} {ds : List Draw} : ∀ {chosen : List Int} {e : RErr},
+    rejectVars k n chosen ds = .error e → e = .outOfDraws ∨ e = .mismatch := by
+  induction ds with
+  | nil =>
+    intro chosen e h
+    rw [rejectVars_nil] at h
+    split at h
+    · left; cases h; rfl
+    · cases h
+  | cons d rest ih =>
+    intro chosen e h
+    rw [rejectVars_cons] at h
+    split at h
+    · cases d with
+      | randint a b v =>
+        simp only at h
+        split at h
+        · exact ih h
+        · right; cases h; rfl
+      | _ => right; cases h; rfl
+    · cases h
+
+theorem drawVars_small {k n : Nat} (h : n ≤ sysMaxsize) :
+    drawVars k n = (sample n k >>= fun idx => pure (isort (idx.map (fun (i : Nat) => (i : Int) + 1)))) := by
+  unfold drawVars; rw [if_pos h]
+
+theorem drawVars_big {k n : Nat} (h : ¬ n ≤ sysMaxsize) :
+    drawVars k n = if n < k then RandM.raise .valueError
+      else (rejectVars k n [] >>= fun chosen => pure (isort chosen)) := by
+  unfold drawVars; rw [if_neg h]
+
 theorem drawVars_ok {k n : Nat} {ds ds' : List Draw} {sel : List Int} (hL : Legal ds)
     (h : drawVars k n ds = .ok (sel, ds')) :
-    k ≤ n ∧ sel ∈ combos (vars n) k ∧ Legal ds' ∧ ds.length = ds'.length + 1 := by
-  unfold drawVars at h
-  obtain ⟨idx, ds1, h1, h2⟩ := RandM.bind_eq_ok.1 h
-  obtain ⟨hkn, rfl⟩ := sample_eq_ok.1 h1
-  have h2' := RandM.pure_eq_ok.1 h2
-  simp only [Prod.mk.injEq] at h2'
-  obtain ⟨rfl, rfl⟩ := h2'
-  obtain ⟨hd, hL'⟩ := Legal.cons.1 hL
-  obtain ⟨hlen, hnd, hlt⟩ := hd
-  refine ⟨hkn, ?_, hL', by simp⟩
-  rw [mem_combos_vars]
-  refine ⟨by rw [isort_length]; simpa using hlen, ?_, ?_⟩
-  · apply isort_strict
-    exact hnd.map (fun a b hab => by simp at hab; omega)
-  · intro x hx
-    have := (isort_perm _).subset hx
-    simp only [List.mem_map] at this
-    obtain ⟨i, hi, rfl⟩ := this
-    have := hlt i hi; omega
+    k ≤ n ∧ sel ∈ combos (vars n) k ∧ Legal ds' ∧ (n ≤ sysMaxsize → ds.length = ds'.length + 1) := by
+  by_cases hn : n ≤ sysMaxsize
+  · rw [drawVars_small hn] at h
+    obtain ⟨idx, ds1, h1, h2⟩ := RandM.bind_eq_ok.1 h
+    obtain ⟨hkn, rfl⟩ := sample_eq_ok.1 h1
+    have h2' := RandM.pure_eq_ok.1 h2
+    simp only [Prod.mk.injEq] at h2'
+    obtain ⟨rfl, rfl⟩ := h2'
+    obtain ⟨hd, hL'⟩ := Legal.cons.1 hL
+    obtain ⟨hlen, hnd, hlt⟩ := hd
+    refine ⟨hkn, ?_, hL', fun _ => by simp⟩
+    rw [mem_combos_vars]
+    refine ⟨by rw [isort_length]; simpa using hlen, ?_, ?_⟩
+    · apply isort_strict
+      exact hnd.map (fun a b hab => by simp at hab; omega)
+    · intro x hx
+      have := (isort_perm _).subset hx
+      simp only [List.mem_map] at this
+      obtain ⟨i, hi, rfl⟩ := this
+      have := hlt i hi; omega
+  · rw [drawVars_big hn] at h
+    by_cases hk : n < k
+    · simp only [hk, if_true, RandM.raise_apply] at h; cases h
+    · simp only [hk, if_false] at h
+      obtain ⟨chosen, ds1, h1, h2⟩ := RandM.bind_eq_ok.1 h
+      have h2' := RandM.pure_eq_ok.1 h2
+      simp only [Prod.mk.injEq] at h2'
+      obtain ⟨rfl, rfl⟩ := h2'
+      obtain ⟨⟨hnd, hm, _⟩, hlen, hL', _⟩ :=
+        rejectVars_ok hL ⟨List.nodup_nil, by simp, Nat.zero_le _⟩ h1
+      refine ⟨by omega, ?_, hL', fun h' => absurd h' hn⟩
+      rw [mem_combos_vars]
+      refine ⟨by rw [isort_length]; exact hlen, isort_strict _ hnd, ?_⟩
+      intro x hx
+      exact hm x ((isort_perm _).subset hx)
 
 theorem drawVars_error {k n : Nat} {ds : List Draw} {e : RErr} (h : drawVars k n ds = .error e) :
-    (e = .py .valueError ∧ n < k) ∨ (e = .outOfDraws ∧ ds = []) ∨ e = .mismatch := by
-  unfold drawVars at h
-  rcases RandM.bind_eq_error.1 h with h1 | ⟨_, _, _, h2⟩
-  · exact sample_eq_error h1
-  · exact absurd h2 RandM.pure_ne_error
-
+    (e = .py .valueError ∧ n < k) ∨ (e = .outOfDraws ∧ (n ≤ sysMaxsize → ds = [])) ∨ e = .mismatch := by
+  by_cases hn : n ≤ sysMaxsize
+  · rw [drawVars_small hn] at h
+    rcases RandM.bind_eq_error.1 h with h1 | ⟨_, _, _, h2⟩
+    · rcases sample_eq_error h1 with h | ⟨h, h'⟩ | h
+      · exact Or.inl h
+      · exact Or.inr (Or.inl ⟨h, fun _ => h'⟩)
+      · exact Or.inr (Or.inr h)
+    · exact absurd h2 RandM.pure_ne_error
+  · rw [drawVars_big hn] at h
+    by_cases hk : n < k
+    · simp only [hk, if_true, RandM.raise_apply] at h
+      left; cases h; exact ⟨rfl, hk⟩
+    · simp only [hk, if_false] at h
+      rcases RandM.bind_eq_error.1 h with h1 | ⟨_, _, _, h2⟩
+      · rcases rejectVars_error h1 with h | h
+        · exact Or.inr (Or.inl ⟨h, fun h' => absurd h' hn⟩)
+        · exact Or.inr (Or.inr h)
+      · exact absurd h2 RandM.pure_ne_error
 theorem choiceFrom_ok {α : Type} {seq : List α} {dflt a : α} {ds ds' : List Draw}
     (h : choiceFrom seq dflt ds = .ok (a, ds')) :
     ∃ i, ds = .choice seq.length i :: ds' ∧ a = seq.getD i dflt := by
@@ -260,27 +382,28 @@ theorem isKClause_of_natAbs {k n : Nat} {sel : List Int} {c : Clause} (hsel : se
 
 theorem drawClause_ok {k n : Nat} {ds ds' : List Draw} {c : Clause} (hL : Legal ds)
     (h : drawClause k n ds = .ok (c, ds')) :
-    k ≤ n ∧ IsKClause k n c ∧ Legal ds' ∧ ds.length = ds'.length + (k + 1) := by
+    k ≤ n ∧ IsKClause k n c ∧ Legal ds' ∧ (n ≤ sysMaxsize → ds.length = ds'.length + (k + 1)) := by
   unfold drawClause at h
   obtain ⟨sel, ds1, h1, h2⟩ := RandM.bind_eq_ok.1 h
   obtain ⟨hkn, hsel, hL1, e1⟩ := drawVars_ok hL h1
   obtain ⟨e2, e3, hL2, e4⟩ := signClause_ok hL1 h2
   have hl := (combos_vars_natAbs hsel).1
-  exact ⟨hkn, isKClause_of_natAbs hsel e2 e3, hL2, by omega⟩
+  exact ⟨hkn, isKClause_of_natAbs hsel e2 e3, hL2, fun hS => by have := e1 hS; omega⟩
 
 theorem drawClause_error {k n : Nat} {ds : List Draw} {e : RErr} (hL : Legal ds)
     (h : drawClause k n ds = .error e) :
-    (e = .py .valueError ∧ n < k) ∨ (e = .outOfDraws ∧ ds.length < k + 1) ∨ e = .mismatch := by
+    (e = .py .valueError ∧ n < k) ∨ (e = .outOfDraws ∧ (n ≤ sysMaxsize → ds.length < k + 1)) ∨
+      e = .mismatch := by
   unfold drawClause at h
   rcases RandM.bind_eq_error.1 h with h1 | ⟨sel, ds1, h1, h2⟩
-  · rcases drawVars_error h1 with h | ⟨rfl, rfl⟩ | rfl
+  · rcases drawVars_error h1 with h | ⟨rfl, hd⟩ | rfl
     · exact Or.inl h
-    · right; left; simp
+    · right; left; exact ⟨rfl, fun hS => by rw [hd hS]; simp⟩
     · right; right; rfl
   · obtain ⟨_, hsel, hL1, e1⟩ := drawVars_ok hL h1
     have hl := (combos_vars_natAbs hsel).1
     rcases signClause_error hL1 h2 with ⟨rfl, hlt⟩ | rfl
-    · right; left; exact ⟨rfl, by omega⟩
+    · right; left; exact ⟨rfl, fun hS => by have := e1 hS; omega⟩
     · right; right; rfl
 
 /-! ### the rejection loop -/
@@ -301,14 +424,14 @@ theorem sparseLoop_unfold (k n m : Nat) (planted : List (List Int)) (fuel : Nat)
 theorem sparseLoop_ok {k n m : Nat} {planted : List (List Int)} {fuel : Nat} {acc res : List Clause}
     {ds ds' : List Draw} (hL : Legal ds) (hI : AccInv k n m planted acc)
     (h : sparseLoop k n m planted fuel acc ds = .ok (res, ds')) :
-    AccInv k n m planted res ∧ Legal ds' ∧ ds.length ≤ ds'.length + fuel * (k + 1) ∧
-      (res.length = m ∨ ds.length = ds'.length + fuel * (k + 1)) := by
+    AccInv k n m planted res ∧ Legal ds' ∧ (n ≤ sysMaxsize → ds.length ≤ ds'.length + fuel * (k + 1) ∧
+      (res.length = m ∨ ds.length = ds'.length + fuel * (k + 1))) := by
   induction fuel generalizing acc ds with
   | zero =>
     have := RandM.pure_eq_ok.1 h
     simp only [Prod.mk.injEq] at this
     obtain ⟨rfl, rfl⟩ := this
-    exact ⟨hI, hL, by omega, Or.inr (by omega)⟩
+    exact ⟨hI, hL, fun _ => ⟨by omega, Or.inr (by omega)⟩⟩
   | succ fuel ih =>
     rw [sparseLoop_unfold] at h
     by_cases hlt : acc.length < m
@@ -317,11 +440,15 @@ theorem sparseLoop_ok {k n m : Nat} {planted : List (List Int)} {fuel : Nat} {ac
       obtain ⟨_, hK, hL1, e1⟩ := drawClause_ok hL h1
       have step : ∀ acc', AccInv k n m planted acc' →
           sparseLoop k n m planted fuel acc' ds1 = .ok (res, ds') →
-          AccInv k n m planted res ∧ Legal ds' ∧ ds.length ≤ ds'.length + (fuel + 1) * (k + 1) ∧
-            (res.length = m ∨ ds.length = ds'.length + (fuel + 1) * (k + 1)) := by
+          AccInv k n m planted res ∧ Legal ds' ∧ (n ≤ sysMaxsize →
+            ds.length ≤ ds'.length + (fuel + 1) * (k + 1) ∧
+            (res.length = m ∨ ds.length = ds'.length + (fuel + 1) * (k + 1))) := by
         intro acc' hI' h'
-        obtain ⟨a, b, c, d⟩ := ih hL1 hI' h'
-        refine ⟨a, b, ?_, ?_⟩
+        obtain ⟨a, b, cd⟩ := ih hL1 hI' h'
+        refine ⟨a, b, fun hS => ?_⟩
+        obtain ⟨c, d⟩ := cd hS
+        have e1 := e1 hS
+        refine ⟨?_, ?_⟩
         · rw [Nat.add_mul]; omega
         · rcases d with d | d
           · exact Or.inl d
@@ -353,13 +480,14 @@ theorem sparseLoop_ok {k n m : Nat} {planted : List (List Int)} {fuel : Nat} {ac
       have := RandM.pure_eq_ok.1 h
       simp only [Prod.mk.injEq] at this
       obtain ⟨rfl, rfl⟩ := this
-      refine ⟨hI, hL, by omega, Or.inl ?_⟩
+      refine ⟨hI, hL, fun _ => ⟨by omega, Or.inl ?_⟩⟩
       have := hI.2.2; omega
 
 theorem sparseLoop_error {k n m : Nat} {planted : List (List Int)} {fuel : Nat} {acc : List Clause}
     {ds : List Draw} {e : RErr} (hL : Legal ds)
     (h : sparseLoop k n m planted fuel acc ds = .error e) :
-    (e = .py .valueError ∧ n < k) ∨ (e = .outOfDraws ∧ ds.length < fuel * (k + 1)) ∨ e = .mismatch := by
+    (e = .py .valueError ∧ n < k) ∨ (e = .outOfDraws ∧ (n ≤ sysMaxsize → ds.length < fuel * (k + 1))) ∨
+      e = .mismatch := by
   induction fuel generalizing acc ds with
   | zero => exact absurd h RandM.pure_ne_error
   | succ fuel ih =>
@@ -369,16 +497,18 @@ theorem sparseLoop_error {k n m : Nat} {planted : List (List Int)} {fuel : Nat} 
       rcases RandM.bind_eq_error.1 h with h1 | ⟨cls, ds1, h1, h2⟩
       · rcases drawClause_error hL h1 with h' | ⟨rfl, hl⟩ | rfl
         · exact Or.inl h'
-        · right; left; refine ⟨rfl, ?_⟩; rw [Nat.add_mul]; omega
+        · right; left; refine ⟨rfl, fun hS => ?_⟩; have hl := hl hS; rw [Nat.add_mul]; omega
         · right; right; rfl
       · obtain ⟨_, _, hL1, e1⟩ := drawClause_ok hL h1
         have step : ∀ acc', sparseLoop k n m planted fuel acc' ds1 = .error e →
-            (e = .py .valueError ∧ n < k) ∨ (e = .outOfDraws ∧ ds.length < (fuel + 1) * (k + 1)) ∨
+            (e = .py .valueError ∧ n < k) ∨
+              (e = .outOfDraws ∧ (n ≤ sysMaxsize → ds.length < (fuel + 1) * (k + 1))) ∨
               e = .mismatch := by
           intro acc' h'
           rcases ih hL1 h' with h'' | ⟨rfl, hl⟩ | rfl
           · exact Or.inl h''
-          · right; left; refine ⟨rfl, ?_⟩; rw [Nat.add_mul]; omega
+          · right; left; refine ⟨rfl, fun hS => ?_⟩
+            have hl := hl hS; have e1 := e1 hS; rw [Nat.add_mul]; omega
           · right; right; rfl
         by_cases hc : acc.contains cls = true
         · simp only [hc, if_true] at h2; exact step _ h2
@@ -430,27 +560,34 @@ theorem sampleFrom_error {α : Type} {pop : List α} {k : Nat} {dflt : α} {ds :
 
 theorem denseClauses_ok {k n m : Nat} {planted : List (List Int)} {ds ds' : List Draw} {res : List Clause}
     (hL : Legal ds) (h : denseClauses k n m planted ds = .ok (res, ds')) :
-    AccInv k n m planted res ∧ res.length = m ∧ Legal ds' ∧ ds.length = ds'.length + 1 := by
+    AccInv k n m planted res ∧ res.length = m ∧ Legal ds' ∧ ds.length = ds'.length + 1 ∧ n ≤ sysMaxsize := by
   unfold denseClauses at h
-  by_cases hlt : (allClauses k n planted).length < m
-  · simp only [hlt, if_true, RandM.raise_apply] at h; cases h
-  · simp only [hlt, if_false] at h
-    obtain ⟨_, hlen, hmem, hnd, hL', e⟩ := sampleFrom_ok hL h
-    exact ⟨⟨hnd (nodup_allClauses k n planted), hmem, by omega⟩, hlen, hL', e⟩
+  by_cases hbig : sysMaxsize < n
+  · rw [if_pos hbig, RandM.raise_apply] at h; cases h
+  · rw [if_neg hbig] at h
+    by_cases hlt : (allClauses k n planted).length < m
+    · simp only [hlt, if_true, RandM.raise_apply] at h; cases h
+    · simp only [hlt, if_false] at h
+      obtain ⟨_, hlen, hmem, hnd, hL', e⟩ := sampleFrom_ok hL h
+      exact ⟨⟨hnd (nodup_allClauses k n planted), hmem, by omega⟩, hlen, hL', e, by omega⟩
 
 theorem denseClauses_error {k n m : Nat} {planted : List (List Int)} {ds : List Draw} {e : RErr}
     (h : denseClauses k n m planted ds = .error e) :
-    (e = .py .valueError ∧ (allClauses k n planted).length < m) ∨ (e = .outOfDraws ∧ ds = []) ∨
-      e = .mismatch := by
+    (e = .py .valueError ∧ (allClauses k n planted).length < m ∧ n ≤ sysMaxsize) ∨
+      (e = .outOfDraws ∧ ds = [] ∧ n ≤ sysMaxsize) ∨ e = .mismatch ∨ (e = .py .overflowError ∧ sysMaxsize < n) := by
   unfold denseClauses at h
-  by_cases hlt : (allClauses k n planted).length < m
-  · simp only [hlt, if_true, RandM.raise_apply] at h
-    cases h; exact Or.inl ⟨rfl, hlt⟩
-  · simp only [hlt, if_false] at h
-    rcases sampleFrom_error h with ⟨_, h'⟩ | h' | h'
-    · exact absurd h' hlt
-    · exact Or.inr (Or.inl h')
-    · exact Or.inr (Or.inr h')
+  by_cases hbig : sysMaxsize < n
+  · rw [if_pos hbig, RandM.raise_apply] at h
+    cases h; exact Or.inr (Or.inr (Or.inr ⟨rfl, hbig⟩))
+  · rw [if_neg hbig] at h
+    by_cases hlt : (allClauses k n planted).length < m
+    · simp only [hlt, if_true, RandM.raise_apply] at h
+      cases h; exact Or.inl ⟨rfl, hlt, by omega⟩
+    · simp only [hlt, if_false] at h
+      rcases sampleFrom_error h with ⟨_, h'⟩ | ⟨h', h''⟩ | h'
+      · exact absurd h' hlt
+      · exact Or.inr (Or.inl ⟨h', h'', by omega⟩)
+      · exact Or.inr (Or.inr (Or.inl h'))
 
 /-! ### `sample_clauses` -/
 
@@ -463,42 +600,46 @@ theorem accInv_nil (k n m : Nat) (planted : List (List Int)) : AccInv k n m plan
 
 theorem sampleClauses_ok {k n m : Nat} {planted : List (List Int)} {ds ds' : List Draw} {res : List Clause}
     (hL : Legal ds) (h : sampleClauses k n m planted ds = .ok (res, ds')) :
-    AccInv k n m planted res ∧ res.length = m ∧ Legal ds' ∧ ds.length ≤ ds'.length + drawBudget k m := by
+    AccInv k n m planted res ∧ res.length = m ∧ Legal ds' ∧
+      (n ≤ sysMaxsize → ds.length ≤ ds'.length + drawBudget k m) := by
   unfold sampleClauses at h
   obtain ⟨cl, ds1, h1, h2⟩ := RandM.bind_eq_ok.1 h
-  obtain ⟨hI, hL1, e1, _⟩ := sparseLoop_ok hL (accInv_nil k n m planted) h1
+  obtain ⟨hI, hL1, e1⟩ := sparseLoop_ok hL (accInv_nil k n m planted) h1
   by_cases hm : cl.length = m
   · simp only [hm, if_true] at h2
     have := RandM.pure_eq_ok.1 h2
     simp only [Prod.mk.injEq] at this
     obtain ⟨rfl, rfl⟩ := this
-    exact ⟨hI, hm, hL1, by unfold drawBudget; omega⟩
+    exact ⟨hI, hm, hL1, fun hS => by have := (e1 hS).1; unfold drawBudget; omega⟩
   · simp only [hm, if_false] at h2
-    obtain ⟨a, b, c, d⟩ := denseClauses_ok hL1 h2
-    exact ⟨a, b, c, by unfold drawBudget; omega⟩
+    obtain ⟨a, b, c, d, _⟩ := denseClauses_ok hL1 h2
+    exact ⟨a, b, c, fun hS => by have := (e1 hS).1; unfold drawBudget; omega⟩
 
 theorem sampleClauses_error {k n m : Nat} {planted : List (List Int)} {ds : List Draw} {e : RErr}
     (hL : Legal ds) (h : sampleClauses k n m planted ds = .error e) :
-    (e = .py .valueError ∧ (n < k ∨ (allClauses k n planted).length < m)) ∨
-      (e = .outOfDraws ∧ ds.length < drawBudget k m) ∨ e = .mismatch := by
+    (e = .py .valueError ∧ (n < k ∨ ((allClauses k n planted).length < m ∧ n ≤ sysMaxsize))) ∨
+      (e = .outOfDraws ∧ (n ≤ sysMaxsize → ds.length < drawBudget k m)) ∨ e = .mismatch ∨
+      (e = .py .overflowError ∧ sysMaxsize < n) := by
   unfold sampleClauses at h
   rcases RandM.bind_eq_error.1 h with h1 | ⟨cl, ds1, h1, h2⟩
   · rcases sparseLoop_error hL h1 with ⟨rfl, h'⟩ | ⟨rfl, h'⟩ | rfl
     · exact Or.inl ⟨rfl, Or.inl h'⟩
-    · right; left; exact ⟨rfl, by unfold drawBudget; omega⟩
-    · right; right; rfl
-  · obtain ⟨hI, hL1, e1, e2⟩ := sparseLoop_ok hL (accInv_nil k n m planted) h1
+    · right; left; exact ⟨rfl, fun hS => by have := h' hS; unfold drawBudget; omega⟩
+    · right; right; left; rfl
+  · obtain ⟨hI, hL1, e12⟩ := sparseLoop_ok hL (accInv_nil k n m planted) h1
     by_cases hm : cl.length = m
     · simp only [hm, if_true] at h2
       exact absurd h2 RandM.pure_ne_error
     · simp only [hm, if_false] at h2
-      rcases denseClauses_error h2 with ⟨rfl, h'⟩ | ⟨rfl, rfl⟩ | rfl
-      · exact Or.inl ⟨rfl, Or.inr h'⟩
-      · right; left; refine ⟨rfl, ?_⟩
+      rcases denseClauses_error h2 with ⟨rfl, h', hS⟩ | ⟨rfl, rfl, hS⟩ | rfl | ⟨rfl, hb⟩
+      · exact Or.inl ⟨rfl, Or.inr ⟨h', hS⟩⟩
+      · right; left; refine ⟨rfl, fun _ => ?_⟩
+        obtain ⟨e1, e2⟩ := e12 hS
         rcases e2 with e2 | e2
         · exact absurd e2 hm
         · unfold drawBudget; simp at e2; omega
-      · right; right; rfl
+      · right; right; left; rfl
+      · right; right; right; exact ⟨rfl, hb⟩
 
 /-! ### `RandomKCNF` -/
 
